@@ -740,6 +740,38 @@ func (e *Enc) appendBuiltin(st *State, c *ssa.CallCommon, ins ssa.Instruction) V
 			q, q, sOff.S, sLen.S, q, sOff.S, newLen.S, A.S, q, oldS.S, q, A.S, q), SBool}))
 		_ = qi
 		st.heaps[name] = e.def("h", Store(h, rBase, A))
+	} else if stt, ok := sl.Elem().Underlying().(*types.Struct); ok && !tIsStr {
+		// elements are struct objects elemref(base, position); their (flat) fields live in the field heaps: the result's
+		// elements carry the fields of the kept prefix and of the appended elements, every other object is unchanged
+		tname := typeName(sl.Elem())
+		tBase, tOff := app(SInt, "sl_base", t), app(SInt, "sl_off", t)
+		for i := 0; i < stt.NumFields(); i++ {
+			ft := stt.Field(i).Type()
+			if isStructVal(ft) {
+				continue
+			}
+			if _, isArr := ft.Underlying().(*types.Array); isArr {
+				continue
+			}
+			hn := "H:" + tname + "." + stt.Field(i).Name()
+			hs := arrSort(SInt, sortOf(ft))
+			e.compSort[hn] = hs
+			h := e.comp(st, hn, hs)
+			h2 := e.fresh("apph", hs)
+			e.n++
+			q := fmt.Sprintf("qa_%d", e.n)
+			er := func(b, off, k string) string { return fmt.Sprintf("(elemref %s (eix %s %s))", b, off, k) }
+			e.elemRef(rBase, I(0))
+			e.assume(st.reach, Term{fmt.Sprintf("(forall ((%s Int)) (! (=> (and (<= 0 %s) (< %s %s)) (= (select %s %s) (select %s %s))) :pattern ((select %s %s))))",
+				q, q, q, sLen.S, h2.S, er(rBase.S, rOff.S, q), h.S, er(sBase.S, sOff.S, q), h2.S, er(rBase.S, rOff.S, q)), SBool})
+			e.assume(st.reach, Term{fmt.Sprintf("(forall ((%s Int)) (! (=> (and (<= 0 %s) (< %s %s)) (= (select %s %s) (select %s %s))) :pattern ((select %s %s))))",
+				q, q, q, tLen.S, h2.S, er(rBase.S, rOff.S, "(+ "+sLen.S+" "+q+")"), h.S, er(tBase.S, tOff.S, q), h2.S, er(rBase.S, rOff.S, "(+ "+sLen.S+" "+q+")")), SBool})
+			e.assume(st.reach, Imp(Eq(tLen, I(1)), Eq(Select(h2, e.elemRef(rBase, e.eix(rOff, sLen))), Select(h, e.elemRef(tBase, e.eix(tOff, I(0)))))))
+			inWin := fmt.Sprintf("(ite %s (and (<= (+ %s %s) (elemref_i %s)) (< (elemref_i %s) (+ %s %s))) true)", inplace.S, rOff.S, sLen.S, q, q, rOff.S, newLen.S)
+			e.assume(st.reach, Term{fmt.Sprintf("(forall ((%s Int)) (! (=> (not (and (= %s (elemref (elemref_b %s) (elemref_i %s))) (= (elemref_b %s) %s) %s)) (= (select %s %s) (select %s %s))) :pattern ((select %s %s))))",
+				q, q, q, q, q, rBase.S, inWin, h2.S, q, h.S, q, h2.S, q), SBool})
+			st.heaps[hn] = h2
+		}
 	}
 	return tv(r)
 }
